@@ -68,9 +68,16 @@ def validated_values(f, param: str):
     return None, None
 
 
-def handled_values(f, param: str):
+def handled_values(f, param: str, program=None):
     out = set()
-    for node in walk_own(f.node):
+    nodes = list(walk_own(f.node))
+    if program is not None:   # the private helpers of the module that f calls take part in the dispatch
+        for x in list(nodes):
+            if isinstance(x, ast.Call) and isinstance(x.func, ast.Name) and x.func.id.startswith('_'):
+                g = program.find_func(f'{f.module.name}:{x.func.id}')
+                if g is not None and g.fq != f.fq:
+                    nodes += list(walk_own(g.node))
+    for node in nodes:
         t = node.test if isinstance(node, (ast.If, ast.IfExp)) else None
         if isinstance(t, ast.Compare) and len(t.ops) == 1 and isinstance(t.ops[0], ast.Eq) and \
                 norm_stmt(t.left) == param and isinstance(t.comparators[0], ast.Constant):
@@ -99,7 +106,7 @@ def mode_exhaustive(ctx, rep, clause):
             raise AnalysisError(f'{f.fq}: tolerance_type validation not found')
         ob(rep, 'EXH', f.fq, 'tolerance_type is validated against {ppm, th}', v == {'ppm', 'th'}, f'{sorted(v)}',
            f'validates {sorted(v)}', f.loc(node), clause)
-    h = handled_values(gi, 'tolerance_type')
+    h = handled_values(gi, 'tolerance_type', program)
     ob(rep, 'EXH', gi.fq, 'the window computation distinguishes one of the two validated types, the other is the '
        'default', len(h) == 1 and h <= {'ppm', 'th'}, f'{sorted(h)}', f'distinguishes {sorted(h)}', gi.loc(), clause)
     # peaks are re-ordered together with their intensities
@@ -125,16 +132,23 @@ def match_indexing(ctx, rep, clause):
     if src is None:
         raise AnalysisError('get_fragment_matches: theoretical m/z list not found')
     k = 0
+    cfm = Canon(f.node)
     for n in walk_own(f.node):
         if isinstance(n, ast.Call) and norm_stmt(n.func) == 'FragmentMatch' and n.args:
             k += 1
             a = n.args[0]
             base = norm_stmt(a.value) if isinstance(a, ast.Subscript) else '?'
+            if isinstance(a, ast.Name):
+                # a loop variable drawn from zip(<list>, <match indices>): the element of <list> at the index's position
+                for kind, payload in cfm.bindings.get(a.id, []):
+                    it = payload[0] if kind == 'each' else None
+                    if isinstance(it, ast.Call) and norm_stmt(it.func) == 'zip' and tuple(payload[1]) == (0,) and it.args:
+                        base = norm_stmt(it.args[0])
             ob(rep, 'SIB-index', f.fq, f'`{norm_stmt(n)[:70]}` indexes the list the m/z values were taken from',
                base == src, f'{base}', f'the match index refers to positions of `{src}` but the fragment is taken from '
                f'`{base}`: peaks are attached to the wrong fragments whenever the two lists are ordered differently',
                f.loc(n), clause)
-    rep.floor('SIB-index', 'FragmentMatch constructions', k, 2)
+    rep.floor('SIB-index', 'FragmentMatch constructions', k, 1)
     srt = [n for n in walk_own(f.node) if isinstance(n, ast.Assign) and norm_stmt(n.targets[0]) == src and
            isinstance(n.value, ast.Call) and norm_stmt(n.value.func) == 'sorted' and 'arg0.mz' in Canon(f.node).text(n.value)]
     ob(rep, 'SIB-index', f.fq, f'`{src}` is the list sorted by m/z', len(srt) == 1, 'sorted(..., key=lambda x: x.mz)',
@@ -220,7 +234,8 @@ def window_bounds(ctx, rep, clause):
     (lower bound / upper bound / observed peak), roles being propagated through plain copies"""
     program = ctx.program
     f = program.func(f'{SC}:get_matched_indices')
-    c = Canon(f.node)
+    from ..canon import helper_inliner
+    c = Canon(f.node, inliner=helper_inliner(program, SC))
     role = {}
     offset_names = set()
     changed = True
@@ -232,12 +247,15 @@ def window_bounds(ctx, rep, clause):
             if not c.is_local(name):
                 continue
             for kind, payload in c.bindings[name]:
-                if kind != 'assign':
+                if kind == 'unpack' and len(payload[1]) == 1 and isinstance(payload[1][0], int):
+                    v = c.resolve(ast.Name(id=name, ctx=ast.Load()))   # lower, upper = helper(...)
+                elif kind == 'assign':
+                    v = payload
+                else:
                     continue
-                v = payload
                 r = None
-                if isinstance(v, ast.BinOp) and isinstance(v.op, (ast.Sub, ast.Add)) and isinstance(v.right, ast.Name) \
-                        and ('tolerance' in norm_stmt(c.resolve(v.right))):
+                if isinstance(v, ast.BinOp) and isinstance(v.op, (ast.Sub, ast.Add)) and \
+                        ('tolerance' in norm_stmt(c.resolve(v.right))):
                     r = 'lower' if isinstance(v.op, ast.Sub) else 'upper'
                 elif isinstance(v, ast.Name) and v.id in role:
                     r = role[v.id]
